@@ -27,7 +27,19 @@ ASSUMPTIONS = ['the identity may be passed as a Line or as anything operator.ind
 REACH = {'logic_sim.c_prop': ('logic_sim.py', 54, 261)}
 REACH_TEXT = {'cb-m2': ('logic_sim.py', "if o_line < len(self.circuit.lines): inject_cb("), 'cb-m48': ('logic_sim.py', 'if inject_cb is not None and o_line < len(self.circuit.lines): inject_cb(')}
 
-FEATS = ['unconn_in', 'unconn_out', 'ff_no_d', 'out_read', 'wiring', 'consts']
+FEATS = ['unconn_in', 'unconn_out', 'ff_no_d', 'out_read', 'wiring', 'consts', 'floating']
+
+
+class FalsyCallback:
+    """a perfectly good callable whose truth value is False (an injector object with __len__ == 0)"""
+    def __init__(self, fn):
+        self.fn = fn
+
+    def __len__(self):
+        return 0
+
+    def __call__(self, line, values):
+        return self.fn(line, values)
 
 
 def plan(tier, seed):
@@ -37,7 +49,7 @@ def plan(tier, seed):
 
 def conclude(agg):
     c = agg['counters']
-    r = [f'monitor counter {k} is zero' for k in ('callbacks_m2', 'callbacks_m4', 'callbacks_m8', 'cycle_callbacks', 'injections', 'downstream_lines_changed', 'upstream_lines_checked')
+    r = [f'monitor counter {k} is zero' for k in ('callbacks_m2', 'callbacks_m4', 'callbacks_m8', 'cycle_callbacks', 'falsy_callable_callbacks', 'floating_net_injections', 'injections', 'downstream_lines_changed', 'upstream_lines_checked')
          if c.get(k, 0) == 0]
     return r
 
@@ -86,7 +98,7 @@ def check_case(case, ctx):
     assign = stim_for(case, srcs, n)
     strip = case['strip_forks']
     order, deps = W.line_deps(b.c, strip_forks=strip)
-    evaluated = [li for li in order if deps[li][0] != 'alias']
+    evaluated = [li for li in order if deps[li][0] not in ('alias', 'zero')]
     val = G.eval_lines(b, net, assign, n, mode=mode, strip_forks=strip)
     mask = lanes_mask(n)
     nontrivial = False
@@ -100,7 +112,11 @@ def check_case(case, ctx):
         def rec(line, values):
             log.append((line, values, np.array(values, copy=True), values.flags.writeable if hasattr(values, 'flags') else False,
                         np.shares_memory(values, sim.c) if isinstance(values, np.ndarray) else False))
-        sim.c_prop(inject_cb=rec)
+        cb = rec
+        if case['vseed'] % 4 == 1:
+            cb = FalsyCallback(rec)
+            ctx.count('falsy_callable_callbacks')
+        sim.c_prop(inject_cb=cb)
         sim.c_to_s()
         ctx.count(f'callbacks_m{m}', len(log))
         ids = []
@@ -125,6 +141,8 @@ def check_case(case, ctx):
         for li in evaluated:
             for x in (deps[li][1] if deps[li][0] == 'op' else []):
                 x = deps[x][1] if deps[x][0] == 'alias' else x
+                if deps[x][0] == 'zero':
+                    continue
                 if pos[x] > pos[li]:
                     ctx.violation('callback-order', f'm={m}: signal {li} reported before its operand {x}', case)
                     return
@@ -155,6 +173,10 @@ def check_case(case, ctx):
         rr = random.Random(case['vseed'] ^ 0xC16)
         for _ in range(case['ninj']):
             L = rr.choice(evaluated)
+            floating_lines = [li for li in evaluated if deps[li][0] == 'op' and not deps[li][1] and b.c.lines[li].driver.kind == '__fork__']
+            if floating_lines and rr.random() < 0.5:
+                L = rr.choice(floating_lines)       # overwrite a floating net: nothing else that reads constant 0 may change
+                ctx.count('floating_net_injections')
             if m == 2:
                 V = rr.getrandbits(n)
                 Varr = np.array([int_to_row(V, sim.s.shape[-1])], dtype=np.uint8)
